@@ -130,6 +130,11 @@ def run(ctx):
     if ctx.tier == "thorough":
         gate_funcs |= {("parser.py", n) for n in dir(I.parser) if n.startswith("p_") or n.startswith("t_")}
     nasty = ["a^.", "a '", "(a", "\"a\"~1.5", "", "a AND", "'", "a:", "x AND (y OR z"]
+    # constructs whose reading depends on what stands to their left (a group after a colon is a field group, a `-`
+    # inside a range is a sign ...): an action that looks at the parser's state must look at ITS OWN call's state
+    # (seeded C14-G: `p.parser.symstack`, re-bound by whichever call started last)
+    contextual = ["title:(foo bar)^2", "(foo bar)^2", "f:(a)^3 x:y", "(a OR b)^0.5 c", "x:(y)^2^3", "[-1 TO 5] (a)^2",
+                  "f:(a b) g:(c)^2", "(a)^2 f:(b)^2 (c)^2", "f:[a TO b]^2 (x)", "n:(-1)^2 (-1)^2"]
     for i in range(ctx.budget(40, 600)):
         n = rng.choice([2, 2, 3, 4])
         per_thread = []
@@ -138,7 +143,8 @@ def run(ctx):
             for _ in range(rng.choice([1, 1, 2, 3])):
                 qg = gen.QueryGen(rng, bad_nums=rng.random() < 0.2)
                 k = rng.random()
-                qs.append(rng.choice(nasty) if k < 0.15 else gen.malformed(rng, qg) if k < 0.3 else qg.query())
+                qs.append(rng.choice(nasty) if k < 0.15 else gen.malformed(rng, qg) if k < 0.3 else
+                          rng.choice(contextual) if k < 0.42 else qg.query())
             per_thread.append(qs)
         steps = sum(len(parsing.lex_tokens(q) or []) + 2 for qs in per_thread for q in qs) * 2 + 4
         style = rng.choice(["random", "round-robin", "bursts"])
